@@ -98,6 +98,10 @@ func guarded(what string, f func() string) (res string) {
 	go func() {
 		defer func() {
 			if r := recover(); r != nil {
+				if _, halted := r.(haltT); halted {
+					done <- "returns" // halted by the watchdog interrupt: the host stayed in control
+					return
+				}
 				panicMu.Lock()
 				panicLog[what+" :: "+fmt.Sprint(r)]++
 				if p := os.Getenv("VERIF_C02_PANICLOG"); p != "" {
@@ -121,10 +125,26 @@ func guarded(what string, f func() string) (res string) {
 	}
 }
 
+type haltT struct{}
+
+// newVM makes a runtime with a stack limit and a watchdog: a script still running after 1.5 s is
+// halted through the interrupt channel (non-termination by design is not a defect; failing to
+// honour the interrupt shows up as "timeout").
 func newVM() *otto.Otto {
 	vm := otto.New()
 	vm.SetStackDepthLimit(200)
+	vm.Interrupt = make(chan func(), 1)
 	return vm
+}
+
+func watchdog(vm *otto.Otto) func() {
+	t := time.AfterFunc(1500*time.Millisecond, func() {
+		select {
+		case vm.Interrupt <- func() { panic(haltT{}) }:
+		default:
+		}
+	})
+	return func() { t.Stop() }
 }
 
 func classify(err error) string {
@@ -155,7 +175,9 @@ func implC02(line string) string {
 		}
 		return guarded(f[0]+" "+fn, func() string {
 			vm := newVM()
+			stop := watchdog(vm)
 			_, err := vm.Run(src)
+			stop()
 			r := classify(err)
 			// the runtime must still be usable
 			if v, err2 := vm.Run("1+1"); err2 != nil || v.String() != "2" {
@@ -208,6 +230,12 @@ func implC02(line string) string {
 			vm.Set("newName", goArgs[k%len(goArgs)])
 			return "returns"
 		})
+	case "seq":
+		b, err := hex.DecodeString(f[1])
+		if err != nil {
+			return "bad-op"
+		}
+		return implSeq(string(b))
 	case "src", "eval", "compile":
 		if len(f) < 2 {
 			f = append(f, "")
@@ -218,6 +246,8 @@ func implC02(line string) string {
 		}
 		return guarded(f[0]+" "+string(b), func() string {
 			vm := newVM()
+			stop := watchdog(vm)
+			defer stop()
 			switch f[0] {
 			case "src":
 				vm.Run(string(b))
@@ -286,6 +316,10 @@ func genC02(c *h.Ctx) {
 		} else {
 			c.Add(fmt.Sprintf("new %s 0 %s", fn, a), "new")
 		}
+	}
+	// stateful API sequences
+	for i := 0; i < c.N(4000, 150000); i++ {
+		c.Add("seq "+hex.EncodeToString([]byte(genSeq(r.Fork(), fns, 4+r.Intn(10)))), "sequence")
 	}
 	// byte strings as source
 	kinds := []string{"src", "eval", "compile"}
